@@ -114,10 +114,13 @@ def handleCase (vars cons hints limit impl cnf assum smods litmap mode hidden : 
           let mchk := smods.map fun ts => Val.bool (cnfTrue (ofTrue ts) f)
           let proj : Val :=
             if wf && mode % 2 == 1 then
-              let nb := litmap.foldl (fun m l => l.foldl (fun m p => max m p.2) m) 0
-              let ms := enumProj ((List.range nb).map (· + 1)) f
-              Val.arr (ms.map fun bs => Val.arr (litmap.map fun l =>
-                Val.ofInts ((l.filter fun p => bs.getD (p.2 - 1) false).map (·.1))))
+              -- project onto the booleans of the declared variables only (after an earlier solve of the
+              -- same Model, stale auxiliary variables sit between them)
+              let pv := ((litmap.flatMap fun l => l.map (·.2)).filter (· != 0)).eraseDups
+              let ms := enumProj pv f
+              Val.arr (ms.map fun bs =>
+                let tv := (pv.zip bs).filter (·.2) |>.map (·.1)
+                Val.arr (litmap.map fun l => Val.ofInts ((l.filter fun p => tv.contains p.2).map (·.1))))
             else Val.null
           Val.arr [Val.bool wf, Val.bool satA, Val.arr mchk, proj]
       (Val.arr [Val.ofIntss sols, Val.ofIntss hintSols, Val.ofInts checks,
